@@ -78,6 +78,22 @@ func DigestXapTar(r io.Reader, hash crypto.Hash, doPageHash bool) (*XapDigest, e
 	}, nil
 }
 
+// TrailerSize returns the number of bytes that an existing signature occupies
+// at the end of a XAP file of the given size, or 0 if it is not signed.
+func TrailerSize(r io.ReaderAt, size int64) int64 {
+	var tr xapTrailer
+	if size < 10 {
+		return 0
+	}
+	if err := binary.Read(io.NewSectionReader(r, size-10, 10), binary.LittleEndian, &tr); err != nil {
+		return 0
+	}
+	if tr.Magic != trailerMagic || int64(tr.TrailerSize)+10 > size {
+		return 0
+	}
+	return int64(tr.TrailerSize) + 10
+}
+
 func removeSignature(cd []byte) []byte {
 	size := len(cd)
 	var tr xapTrailer
